@@ -2,14 +2,15 @@ package http_api
 
 import (
 	"errors"
-	"io"
 	"net/http"
 	"net/url"
 )
 
+// ReqParams are the query arguments of a request. The request body is not
+// part of them: no caller uses it, and reading it here (unbounded io.ReadAll)
+// let any client make the daemon buffer a body of arbitrary size.
 type ReqParams struct {
 	url.Values
-	Body []byte
 }
 
 func NewReqParams(req *http.Request) (*ReqParams, error) {
@@ -18,12 +19,7 @@ func NewReqParams(req *http.Request) (*ReqParams, error) {
 		return nil, err
 	}
 
-	data, err := io.ReadAll(req.Body)
-	if err != nil {
-		return nil, err
-	}
-
-	return &ReqParams{reqParams, data}, nil
+	return &ReqParams{reqParams}, nil
 }
 
 func (r *ReqParams) Get(key string) (string, error) {
